@@ -20,12 +20,12 @@ use std::fmt::Write as _;
 fn main() {
     let args: Vec<String> = std::env::args().collect();
     if args.len() < 2 {
-        eprintln!("usage: vtool gen <plan> <outdir> | vtool replay <file>");
+        eprintln!("usage: vtool gen <plan> <outdir> | vtool witness <plan> [maxlen]");
         std::process::exit(2);
     }
     match args[1].as_str() {
         "gen" => gen(&args[2], &args[3]),
-        "replay" => std::process::exit(replay::main(&args[2..])),
+        "witness" => std::process::exit(replay::main(&args[2..])),
         _ => {
             eprintln!("unknown subcommand");
             std::process::exit(2);
